@@ -69,16 +69,20 @@ def tasks_single(prop, tier, seed):
     if tier == "thorough":
         entries += [e for e in corpus_T() if e["trait"] not in (tr, "ast", "global")]
     for e in entries:
-        outs = [e.get("out")]
-        if cfg["V"] == "inout":
-            hs = [list(x) for x in head_sigs(e["text"])]
-            outs = [e.get("out") if e.get("out") is not None else hs]
-            if e.get("out") is None or tier == "thorough":
-                outs += [o for o in ([], hs) if o not in outs]
+        mode = e.get("V", cfg["V"])
+        if e.get("outs") is not None:
+            outs = e["outs"]
+        else:
+            outs = [e.get("out")]
+            if cfg["V"] == "inout" and mode != "show":
+                hs = [list(x) for x in head_sigs(e["text"])]
+                outs = [e.get("out") if e.get("out") is not None else hs]
+                if e.get("out") is None or tier == "thorough":
+                    outs += [o for o in ([], hs) if o not in outs]
         for o in outs:
-            tasks.append(base_task(dict(e, out=o), [tr], cfg["V"], tier, one_to_one=cfg["one_to_one"]))
+            tasks.append(base_task(dict(e, out=o), [tr], mode, tier, one_to_one=cfg["one_to_one"]))
             if e["id"].startswith("T-"):
-                tasks.append(base_task(dict(e, out=o, id=e["id"] + "-L"), [tr], cfg["V"], tier, one_to_one=cfg["one_to_one"], lift=True))
+                tasks.append(base_task(dict(e, out=o, id=e["id"] + "-L"), [tr], mode, tier, one_to_one=cfg["one_to_one"], lift=True))
     return tasks
 
 
